@@ -134,6 +134,103 @@ func init() {
 					}
 					c.Case(0, true, map[bool]string{true: "accepted", false: "refused"}[ok])
 				}})
+			// the same declarations written with blanks / line breaks inside the brackets
+			wsIn := []string{" ", "\t", "\n", "\r\n", " \r\n\t "}
+			sp = append(sp, h.Space{Name: "declarations-with-inner-whitespace", Count: product(4, 3, 4, 4, 4, len(wsIn)),
+				Describe: func(i uint64) interface{} {
+					d := unrank(i, 4, 3, 4, 4, 4, len(wsIn))
+					return fmt.Sprintf("form %d type %s bounds %d %d actual %d whitespace %q", d[0], []ref.Kind{ref.L, ref.A, ref.U2}[d[1]], d[2], d[3], d[4], wsIn[d[5]])
+				},
+				Run: func(c *h.Ctx, i uint64) {
+					d := unrank(i, 4, 3, 4, 4, 4, len(wsIn))
+					form, k, a, b, actual, ws := d[0], []ref.Kind{ref.L, ref.A, ref.U2}[d[1]], d[2], d[3], d[4], wsIn[d[5]]
+					if (form == 0 || form == 2) && b != 0 || form == 3 && a != 0 {
+						c.Case(0, false, "unused-bound")
+						return
+					}
+					as, bs := strconv.Itoa(a), strconv.Itoa(b)
+					var decl string
+					switch form {
+					case 0:
+						decl = "[" + ws + as + ws + "]"
+					case 1:
+						decl = "[" + ws + as + ws + ".." + ws + bs + ws + "]"
+					case 2:
+						decl = "[" + ws + as + ws + ".." + ws + "]"
+					default:
+						decl = "[" + ws + ".." + ws + bs + ws + "]"
+					}
+					text := "S1F1 W\n<" + k.String() + decl + " " + elemsText(k, actual, 0) + ">\n."
+					_, errs, _, pan := smlRun(text)
+					c.Ops(1)
+					in := "sml.Parse(" + strconv.Quote(text) + ")"
+					ok := within(form, a, b, actual)
+					switch {
+					case pan != "":
+						c.Fail("panic", in, pan)
+					case ok && len(errs) > 0:
+						c.Fail("size-within-bounds-refused:"+k.String(), in, fmt.Sprint(errs))
+					case !ok && len(errs) == 0:
+						c.Fail("size-outside-bounds-accepted:"+k.String(), in, fmt.Sprintf("count %d accepted", actual))
+					}
+					// an ASCII variable keeps the bounds written this way
+					if k == ref.A && form == 1 && a <= b {
+						vt := "S1F1 W\n<A" + decl + " v0>\n."
+						ms, e2, _, _ := smlRun(vt)
+						if len(e2) > 0 || len(ms) != 1 {
+							c.Fail("ascii-variable-declaration-refused", "sml.Parse("+strconv.Quote(vt)+")", fmt.Sprint(e2))
+						} else if an, isA := msgItem(ms[0]).(*ast.ASCIINode); !isA {
+							c.Fail("ascii-variable-lost", vt, "")
+						} else if mn, mx := an.FillInStringLength(); mn != a || mx != b {
+							c.Fail("bounds-not-kept", "sml.Parse("+strconv.Quote(vt)+")", fmt.Sprintf("FillInStringLength()=(%d,%d) want (%d,%d)", mn, mx, a, b))
+						}
+					}
+					c.Case(0, true, map[bool]string{true: "accepted", false: "refused"}[ok])
+				}})
+			// sized lists around sized items: every level is checked against its OWN declaration
+			sp = append(sp, h.Space{Name: "nested-declarations", Count: product(4, 4, 4, 4, 3),
+				Describe: func(i uint64) interface{} {
+					d := unrank(i, 4, 4, 4, 4, 3)
+					return fmt.Sprintf("<L[%d] ...%d children each <%s[%d] ...> (inner actual %d)", d[0], d[1], []string{"A var", "A literal", "U1"}[d[4]], d[2], d[3])
+				},
+				Run: func(c *h.Ctx, i uint64) {
+					d := unrank(i, 4, 4, 4, 4, 3)
+					outerDecl, nChildren, innerDecl, innerActual := d[0], d[1], d[2], d[3]
+					var child string
+					innerOK := true
+					switch d[4] {
+					case 0:
+						child = fmt.Sprintf("<A[%d] v%%d>", innerDecl) // a variable: its declaration is not a count to check
+					case 1:
+						child = fmt.Sprintf("<A[%d] %s>", innerDecl, elemsText(ref.A, innerActual, 0))
+						innerOK = innerDecl == innerActual
+					default:
+						child = fmt.Sprintf("<U1[%d] %s>", innerDecl, elemsText(ref.U1, innerActual, 0))
+						innerOK = innerDecl == innerActual
+					}
+					var kids []string
+					for k := 0; k < nChildren; k++ {
+						if strings.Contains(child, "%d") {
+							kids = append(kids, fmt.Sprintf(child, k))
+						} else {
+							kids = append(kids, child)
+						}
+					}
+					text := fmt.Sprintf("S1F1\n<L[%d] <L[%d] %s> <U1 1>>\n.", 2, outerDecl, strings.Join(kids, " "))
+					_, errs, _, pan := smlRun(text)
+					c.Ops(1)
+					in := "sml.Parse(" + strconv.Quote(text) + ")"
+					ok := outerDecl == nChildren && (innerOK || nChildren == 0)
+					switch {
+					case pan != "":
+						c.Fail("panic", in, pan)
+					case ok && len(errs) > 0:
+						c.Fail("nested-size-within-bounds-refused", in, fmt.Sprint(errs))
+					case !ok && len(errs) == 0:
+						c.Fail("nested-size-outside-bounds-accepted", in, "accepted")
+					}
+					c.Case(0, true, map[bool]string{true: "accepted", false: "refused"}[ok])
+				}})
 			// huge and overflowing bounds
 			huge := []string{"16777215", "16777216", "4294967296", "9223372036854775807", "9223372036854775808", "100000000000000000000"}
 			sp = append(sp, h.Space{Name: "huge-bounds", Count: product(4, 14, len(huge), 3),
